@@ -19,7 +19,7 @@ DET_EVERY = 200
 RULE = ("1-8 stations registered in random order, then 1-25 add/remove/update/query operations with Currents built as "
         "expression trees (leaf forms str/list/dict/Series, +, -, k*a, a*k, a*=k, nested); non-trivial = history with "
         ">=1 remove or update and >=1 composed Current; distinct = distinct operation/expression-shape sequence")
-PROBES = ["concurrent_callers", "thread_switches", "composed_current", "scalar_multiple_operand", "remove", "update", "update_new_name", "rejected_unknown_station",
+PROBES = ["warning_as_error_survived", "concurrent_callers", "thread_switches", "composed_current", "scalar_multiple_operand", "remove", "update", "update_new_name", "rejected_unknown_station",
           "rejected_unknown_name", "late_register_rejected", "subset_query_reordered", "time_subset_query", "time_window_permuted",
           "duplicate_name", "unnamed", "series_leaf", "json_restart", "plain_series_operand", "update_derived_from_old_row", "time_window_negative", "shared_operand_world", "late_register_existing_id", "name_collision_beyond_alias"]
 FAULT_DIMENSION = "restart (network saved to JSON and loaded mid-history); rejected operations (unknown station / unknown name / late register_evse); weakest sense in which the family applies"
@@ -210,7 +210,13 @@ def gen(rs, tier):
             ops.append({"op": "late_register", "existing": r.random() < 0.4})
         else:
             ops.append({"op": "roundtrip"})      # restart: the network is saved to JSON, loaded, and the history continues
-    return {"seed": rs, "stations": stations, "phases": phases, "ops": ops}
+    rq = sub(rs, "c12env")
+    return {"seed": rs, "stations": stations, "phases": phases, "ops": ops,
+            # environment: the caller runs with UserWarnings escalated to exceptions (python -W error::UserWarning, a strict test
+            # configuration) and survives them: an operation that ends in such an exception must have changed nothing
+            "strict_warnings": rq.random() < 0.2,
+            # the container type in which subsets of constraint names are handed over
+            "subset_form": rq.choice(["list", "list", "tuple", "set", "frozenset", "dict_keys", "dict", "ndarray", "index"])}
 
 
 def compare_state(nw, rows, stations, out, i, what):
@@ -294,7 +300,21 @@ def check(sc):
                             break
                         continue
                     before = list(nw.constraint_index)
-                    nw.add_constraint(cur, op["limit"], name=nm)
+                    if sc.get("strict_warnings") and nm is not None and nm in names:
+                        try:
+                            with warnings.catch_warnings():
+                                warnings.simplefilter("error", UserWarning)
+                                nw.add_constraint(cur, op["limit"], name=nm)
+                            raised_ = False
+                        except UserWarning:
+                            raised_ = True
+                        if raised_:
+                            out.probe("warning_as_error_survived")
+                            if not compare_state(nw, rows, stations, out, i, "add under a taken name that ended in a UserWarning raised as an exception"):
+                                break
+                            continue
+                    else:
+                        nw.add_constraint(cur, op["limit"], name=nm)
                     ever = True
                     after = list(nw.constraint_index)
                     if len(set(after)) != len(after) and len(after) == len(before) + 1 and (nm is None or nm in names):
@@ -454,7 +474,15 @@ def check(sc):
                             tsel = r.choice([list(range(-k_, 0)), list(range(-1, -k_ - 1, -1)), [-1, 0], [-1]])
                             out.probe("time_window_negative")
                         out.probe("time_subset_query")
-                    got = nw.constraint_current(np.array(M), constraints=subset, time_indices=tsel, linear=op["linear"])
+                    subset_arg = subset
+                    sf = sc.get("subset_form", "list")
+                    if subset is not None and sf != "list":
+                        import pandas as _pd
+                        subset_arg = {"tuple": tuple, "set": set, "frozenset": frozenset, "dict_keys": lambda x: dict.fromkeys(x).keys(),
+                                      "dict": lambda x: dict.fromkeys(x, True), "ndarray": lambda x: np.array(x, dtype=object),
+                                      "index": _pd.Index}[sf](subset)
+                        out.probe("subset_as_" + sf)
+                    got = nw.constraint_current(np.array(M), constraints=subset_arg, time_indices=tsel, linear=op["linear"])
                     by = {x["name"]: x for x in rows}
                     want_names = [x for x in idx if subset is None or x in subset]
                     cols = tsel if tsel is not None else list(range(T))
